@@ -209,6 +209,18 @@ def gen_process_dot(ctx):
                     text = G.xml_model(gdecl=G.BASE_DECL, tdecl=tdecl)
                     cases.append(G.Case("d%d" % k, "xml", text, [q % (tcall if twin else call)], "accept" if twin else "reject",
                                         [] if twin else [diag], "ctx=%s/process-dot/%s/%s/%s" % (qn, "twin" if twin else "call", what, form)))
+        # element of a process array: `P(0).f()`, `forall (k : ..) P(k).f()`
+        for call, al in (("P(0).%s()", [diag]), ("forall (k : int[0,1]) P(k).%s() == 1 ? 1 : 0", None)):
+            if al is None and qn != "query-AG":
+                continue
+            for twin in (False, True):
+                k += 1
+                fn = "twr" if not twin else "tpure"
+                text = G.xml_model(gdecl=G.BASE_DECL, tdecl="int tw; int twr() { tw = 1; return 1; }\nint tpure() { return tw + 1; }",
+                                   params="const int[0,1] id", system="system P;")
+                qq = (q % (call % fn)) if al else "A[] forall (k : int[0,1]) P(k).%s() == 1" % fn
+                cases.append(G.Case("d%d" % k, "xml", text, [qq.replace("P.s1", "P(0).s1")], "accept" if twin else "reject",
+                                    [] if twin else [diag, G.SE % "Expression"], "ctx=%s/process-dot/%s/process-array/%s" % (qn, "twin" if twin else "call", "index" if al else "quantified-index")))
     return cases
 
 
